@@ -21,7 +21,7 @@ CLAIMS = {
           "(R2) tell() of the append handle is the true end of file (no tell/write between a seek and its truncate); (R3) uniqueness: hashkey column unique, every INSERT is OR IGNORE or dominated by the already-indexed filter, repack updates by primary key; "
           "(R4) the manual-recovery script in docs/pages/design.md agrees with the code (table/column names, index file name, pack folder, boolean encoding, raw zlib streams); (R5) repack: committed rows always designate an existing, flushed pack file (or the temporary pack). "
           "Does NOT decide range arithmetic as values (non-overlap, within-file for all histories); recoverability only as schema/script agreement."),
-    note="Trusted: O_APPEND writes at end of file; SQLite unique index; the documented script is parsed as text blocks of the design page. Also hosts the rule modules of C09 (no key indexed twice) and C13 (ranges never move or shrink).",
+    note="Trusted: O_APPEND writes at end of file; SQLite unique index; the documented script is parsed as text blocks of the design page. Also hosts the rule modules of C09 (no key indexed twice), C13 (ranges never move or shrink) and C10 (the compressed flag of a row is the form of the bytes it designates).",
     technique="per-iteration typestate on inlined CFGs (offset/length pairing, append-handle) + schema/SQL/doc term agreement", ref="5/C03"),
  'C05': dict(
     text=("Decides, from the source, the ordering clauses of crash safety on every path, loop iteration and flag specialisation: "
@@ -96,7 +96,7 @@ CLAIMS = {
     text=("Decides resource-shape clauses: (R1) every descriptor-producing call of the package (open, os.open, sqlite3.connect, tempfile) is with-managed, closed on all normal paths of its function, handed over, or stored in an attribute whose owner class closes it; Container.close closes and disposes both sessions, which are plain per-handle attributes (no property / thread-local indirection), and __exit__/__del__ call it; "
           "(R2) the bulk-read generator never has two files open and closes on every exit incl. exceptions; the lazy loose stream is closed after each yield; (R3) no descriptor-returning call is discarded, incl. fcntl commands folding to F_DUPFD under Linux and macOS platform models; "
           "(R4) lazily opened streams are used only inside their with block; (R5) every read in a streaming loop has a constant bound, whole-object reads in import are guarded by the memory budget; (R6) open_streams forwarded unchanged by every wrapper. Does NOT decide measured memory or the run-time descriptor census."),
-    note="Garbage collection is not relied upon; platform models Linux + macOS.",
+    note="Garbage collection is not relied upon; platform models Linux + macOS. Also hosts the rule module of C07 (bounded memory while reading compressed objects rests on the decompresser's buffer discipline and bounded seek reads).",
     technique="leak / one-open-file typestate on CFGs with exception edges + platform-aware constant folding + bounded-read table", ref="5/C18"),
  'C01': dict(
     text=("Decides structural clauses of the round trip on every write/read path: (R1) every chunked copy/hash loop ends only on the empty chunk, each chunk reaches the sink exactly once and the hasher exactly once on every path through the body (uncompressed bytes hashed), the compressor is flushed after the loop; "
